@@ -271,9 +271,27 @@ func (de *dEval) runC07() {
 		faults = append(faults, &Fault{Kind: "extra", File: idxName, Len: int64(n), Data: extra})
 	}
 	if !thorough {
-		// seeded sample of about 300, always keeping the undamaged case and index removal
-		keep := faults[:1]
-		rest := faults[1:]
+		// seeded sample of about 300; the boundary cases are always kept
+		must := func(f *Fault) bool {
+			switch f.Kind {
+			case "none", "rmindex", "extra":
+				return true
+			case "trunc":
+				if f.File == logName {
+					return f.Pos == 0 || f.Pos == 8 || f.Pos == int64(len(logData))-1
+				}
+				return f.Pos == 0 || f.Pos == 8 || f.Pos == int64(len(idxData))-1
+			}
+			return false
+		}
+		var keep, rest []*Fault
+		for _, f := range faults {
+			if must(f) {
+				keep = append(keep, f)
+			} else {
+				rest = append(rest, f)
+			}
+		}
 		for len(keep) < 300 && len(rest) > 0 {
 			j := de.rng.Intn(len(rest))
 			keep = append(keep, rest[j])
@@ -310,6 +328,7 @@ func faultSeed(seed uint64, f *Fault) uint64 {
 }
 
 func (de *dEval) evalC07(f *Fault) {
+	heartbeat()
 	cfg := &de.plan.Cfg
 	frng := NewRng(faultSeed(de.plan.Seed, f))
 	de.res.Evals++
@@ -401,6 +420,10 @@ func (de *dEval) evalC07(f *Fault) {
 			return
 		}
 		after := snapDir(d)
+		if via == "Open(Recover)" && len(recs) == 0 && bytes.Equal(after[logName], refcodec.LogHeader(refcodec.V2)) {
+			// Open goes on to prepare the (empty) segment for writing: a header-only file is the empty log
+			after[logName] = P
+		}
 		if !bytes.Equal(after[logName], P) {
 			kind := "kept-too-much"
 			if len(after[logName]) < len(P) {
@@ -659,6 +682,7 @@ func (de *dEval) runC14() {
 	os.RemoveAll(p0)
 
 	eval := func(f *Fault) {
+		heartbeat()
 		de.res.Evals++
 		de.res.Faults[f.Kind]++
 		d := de.freshCopy("d")
